@@ -6,6 +6,7 @@ From Coq Require Import List String Ascii Bool Arith.
 From Spil Require Import Base.Str Base.Dict Base.Outcome Base.PyPath Resolva.Resolver Conf.Conf Conf.Routing Conf.WF Sid.Sid
   Search.Unfold Search.Finders FS.Fs Data.Data Data.Crash Path.PathProofs Data.DataProofs Data.CrashProofs.
 From Spil Require Import Sid.SidProofs Path.UnambiguousDefs Search.TreeListDefs Data.SidLevelDefs Data.CreateDefs Data.CreateFs Data.CreateProofs.
+From Spil Require Import Data.HistoryDefs Data.HistoryProofs.
 From SpilGen Require Hamlet.
 Import ListNotations.
 Local Open Scope string_scope.
@@ -183,3 +184,156 @@ Example C15_instance :
   = [Ok true; Ok false; Ok true; Ok true; Ok false].
 Proof. vm_compute. repeat split; reflexivity. Qed.
 Print Assumptions C15_instance.
+
+(** ** "The data read for a Sid is the overlay, in call order, of everything written to it": histories of create / set / update
+    calls (Data/HistoryDefs.v, Data/HistoryProofs.v).  [run_hist] runs the calls one after the other, a failing call leaving the
+    tree as it is; [writes_to dp] collects, along the run, the data of the calls that returned True having written (a create()
+    with data, any update()) and whose Sid has the sidecar file dp.  The equation holds for EVERY tree and EVERY path dp; its only
+    guard is that the written dicts have distinct keys ([hist_nodupb]; without it: C15_data_history_needs_nodup).  No condition on
+    paths is needed: a creation changes no node that is there, and what it adds (a directory, an empty file) reads as "no data"
+    like a missing sidecar.  If dp holds something that cannot be loaded, no write to it succeeds and it stays
+    (C15_data_history_blocked), so both sides are "no data". *)
+Theorem C15_data_history :
+  forall (L : Loaded) (R : Routing) (ops : list wop) (F : fs) (dp : string),
+  hist_nodupb ops = true ->
+  load_sidecar (fst (run_hist L R F ops)) dp = fold_left dupdate (writes_to L R dp F ops) (load_sidecar F dp).
+Proof. exact data_history. Qed.
+Print Assumptions C15_data_history.
+
+(* a corrupt / empty / unreadable file or a directory at the place of a sidecar: it stays, and no write to it succeeds *)
+Theorem C15_data_history_blocked :
+  forall (L : Loaded) (R : Routing) (ops : list wop) (F : fs) (dp : string) (n : node),
+  fs_get F dp = Some n ->
+  node_blocked n = true ->
+  fs_get (fst (run_hist L R F ops)) dp = Some n /\ writes_to L R dp F ops = [].
+Proof. exact data_history_blocked. Qed.
+Print Assumptions C15_data_history_blocked.
+
+(* a path that no successful write addressed and that no creation may have added is as it was *)
+Theorem C15_data_history_frame :
+  forall (L : Loaded) (R : Routing) (ops : list wop) (F : fs) (q : string),
+  ~ In q (written_targets L R F ops) ->
+  ~ In q (created_by L R F ops) ->
+  fs_get (fst (run_hist L R F ops)) q = fs_get F q.
+Proof. exact data_history_frame. Qed.
+Print Assumptions C15_data_history_frame.
+
+(* the data of a Sid whose sidecar no call succeeded to write is as it was (whatever configuration it is read with) *)
+Theorem C15_data_history_isolation :
+  forall (L : Loaded) (R : Routing) (ops : list wop) (F : fs) (cfg' : string) (y : sid) (attrs : list string) (enc : encoder),
+  (forall py : string, sid_path L y (default_cfg L cfg') = Ok (Some py) ->
+                       ~ In (sidecar L py) (written_targets L R F ops)) ->
+  get_data_paths L (fst (run_hist L R F ops)) cfg' y attrs enc = get_data_paths L F cfg' y attrs enc.
+Proof. exact data_history_isolation. Qed.
+Print Assumptions C15_data_history_isolation.
+
+(* "writing to one entity never changes the data of an entity whose path differs from its own by more than the file extension" *)
+Theorem C15_data_history_isolation_paths :
+  forall (L : Loaded) (R : Routing) (ops : list wop) (F : fs) (cfg' : string) (y : sid) (attrs : list string) (enc : encoder),
+  (forall (py : string) (op : wop) (p : string),
+     sid_path L y (default_cfg L cfg') = Ok (Some py) ->
+     In op ops ->
+     entity_path L (op_cfg op) (op_sid op) = Some p ->
+     parent_path p <> parent_path py \/ sidecar_stem p <> sidecar_stem py) ->
+  get_data_paths L (fst (run_hist L R F ops)) cfg' y attrs enc = get_data_paths L F cfg' y attrs enc.
+Proof. exact data_history_isolation_paths. Qed.
+Print Assumptions C15_data_history_isolation_paths.
+
+(* the record get_data returns after the history: the overlay, plus the "sid" entry *)
+Theorem C15_data_history_read :
+  forall (L : Loaded) (R : Routing) (ops : list wop) (F : fs) (cfg : string) (x : sid) (p : string) (enc : encoder),
+  hist_nodupb ops = true ->
+  sid_path L x (default_cfg L cfg) = Ok (Some p) ->
+  get_data_paths L (fst (run_hist L R F ops)) cfg x [] enc =
+  Ok (let data := map (fun kv => (fst kv, Some (snd kv)))
+                      (fold_left dupdate (writes_to L R (sidecar L p) F ops) (load_sidecar F (sidecar L p))) in
+      match encode enc x with
+      | Some e => if truthy e then dset data "sid" (Some e) else data
+      | None => data
+      end).
+Proof. exact data_history_read. Qed.
+Print Assumptions C15_data_history_read.
+
+(* where the visibility of the created paths matters ([hist_pathsb]: no path a create() may add has a component starting
+   with "."): a sidecar (or any path with such a component) that is absent or a JSON file stays absent or a JSON file,
+   so no write is refused because of what a creation put there *)
+Theorem C15_data_history_unblocked :
+  forall (L : Loaded) (R : Routing) (ops : list wop) (F : fs) (dp : string),
+  hist_pathsb L ops = true ->
+  no_hiddenb dp = false ->
+  sidecar_free F dp = true ->
+  sidecar_free (fst (run_hist L R F ops)) dp = true.
+Proof. exact data_history_unblocked. Qed.
+Print Assumptions C15_data_history_unblocked.
+
+Theorem C15_data_history_update_succeeds :
+  forall (L : Loaded) (R : Routing) (ops : list wop) (F : fs) (cfg s : string) (data : dict string) (x : sid) (p : string),
+  hist_pathsb L ops = true ->
+  Sid L s = Ok x ->
+  sid_path L x (default_cfg L cfg) = Ok (Some p) ->
+  sidecar_free F (sidecar L p) = true ->
+  fs_exists (fst (run_hist L R F ops)) p = true ->
+  exists F' : fs, w_update L (fst (run_hist L R F ops)) cfg s data = Ok (F', true).
+Proof. exact data_history_update_succeeds. Qed.
+Print Assumptions C15_data_history_update_succeeds.
+
+(* two paths share their sidecar ONLY IF they lie in the same directory and have the same dotted stem, i.e. differ by no
+   more than the last extension (the converse of C15_same_stem_shares); no hypothesis *)
+Theorem C15_sidecar_path_stem :
+  forall suf p : string,
+  sidecar_path suf p = (if String.eqb (parent_path p) "/" then "/" else parent_path p ++ "/") ++ sidecar_stem p ++ suf.
+Proof. exact sidecar_path_stem. Qed.
+Print Assumptions C15_sidecar_path_stem.
+
+Theorem C15_sidecar_injective :
+  forall suf p1 p2 : string,
+  sidecar_path suf p1 = sidecar_path suf p2 ->
+  parent_path p1 = parent_path p2 /\ sidecar_stem p1 = sidecar_stem p2.
+Proof. exact sidecar_injective. Qed.
+Print Assumptions C15_sidecar_injective.
+
+(* instance on the configuration of this run: two entities that share a sidecar (.../w/ma, .../w/mb) and one that does not;
+   an update of an entity that does not exist yet and a re-creation fail and leave no trace *)
+Definition ma15 : string := "hamlet/a/char/ophelia/model/v001/w/ma".
+Definition mb15 : string := "hamlet/a/char/ophelia/model/v001/w/mb".
+Definition skull15 : string := "hamlet/a/prop/skull".
+Definition whist15 : list wop :=
+  [ WUpdate "" ma15 [("a", "0")];
+    WCreate "" ma15 [("a", "1"); ("b", "1")];
+    WUpdate "" mb15 [("b", "9")];
+    WCreate "" mb15 [("b", "2"); ("c", "2")];
+    WCreate "" skull15 [("k", "v")];
+    WUpdate "" ma15 [("a", "3")];
+    WCreate "" ma15 [("z", "z")];
+    WUpdate "" skull15 [("k", "w"); ("m", "n")] ].
+Definition read15 (s : string) : list (dict string) * dict string :=
+  match target Hamlet.the_loaded "" s with
+  | Some dp => (writes_to Hamlet.the_loaded Rt15 dp fs_root whist15,
+                load_sidecar (fst (run_hist Hamlet.the_loaded Rt15 fs_root whist15)) dp)
+  | None => ([], [])
+  end.
+Example C15_data_history_instance :
+  hist_visibleb Hamlet.the_loaded whist15 = true /\
+  snd (run_hist Hamlet.the_loaded Rt15 fs_root whist15)
+  = [Raise SpilException; Ok true; Raise SpilException; Ok true; Ok true; Ok true; Raise SpilException; Ok true] /\
+  target Hamlet.the_loaded "" ma15 = target Hamlet.the_loaded "" mb15 /\
+  target Hamlet.the_loaded "" ma15 <> None /\
+  target Hamlet.the_loaded "" skull15 <> None /\
+  target Hamlet.the_loaded "" ma15 <> target Hamlet.the_loaded "" skull15 /\
+  read15 ma15 = ([[("a", "1"); ("b", "1")]; [("b", "2"); ("c", "2")]; [("a", "3")]], [("a", "3"); ("b", "2"); ("c", "2")]) /\
+  read15 mb15 = read15 ma15 /\
+  read15 skull15 = ([[("k", "v")]; [("k", "w"); ("m", "n")]], [("k", "w"); ("m", "n")]).
+Proof. vm_compute. repeat split; try reflexivity; discriminate. Qed.
+Print Assumptions C15_data_history_instance.
+
+(* the guard of C15_data_history is needed: a dict given with a repeated key (not a python dict) is dumped as it is into a
+   missing sidecar, while the overlay keeps one entry per key *)
+Theorem C15_data_history_needs_nodup :
+  exists (L : Loaded) (R : Routing) (ops : list wop) (F : fs) (dp : string),
+  load_sidecar (fst (run_hist L R F ops)) dp <> fold_left dupdate (writes_to L R dp F ops) (load_sidecar F dp).
+Proof.
+  exists Hamlet.the_loaded, Rt15, [WCreate "" ma15 [("a", "1"); ("a", "2")]], fs_root,
+    (match target Hamlet.the_loaded "" ma15 with Some dp => dp | None => "" end).
+  vm_compute. discriminate.
+Qed.
+Print Assumptions C15_data_history_needs_nodup.
